@@ -45,11 +45,16 @@ func DurationValueWithin(d time.Duration) Value {
 		if returnEarly {
 			return equal, ok
 		}
-		if xd < yd {
-			return yd-xd <= d, true
-		}
-		return xd-yd <= d, true
+		return d >= 0 && absDiff(xd, yd) <= uint64(d), true
 	}
+}
+
+// absDiff returns |x-y|. The difference of two durations always fits in a uint64 but can overflow a time.Duration.
+func absDiff(x, y time.Duration) uint64 {
+	if x < y {
+		x, y = y, x
+	}
+	return uint64(x) - uint64(y)
 }
 
 // DurationValueWithinP considers two durationpb.Duration to be equal if their values are within p percent of each other.
